@@ -912,6 +912,30 @@ struct SweepData {
   integrators: Vec<(&'static str, Integrator, bool, bool)>,
   divs1: Vec<usize>,
   divs2: Vec<usize>,
+  /// Simpson 1-D rules with their sample points x_i = a + i·dx: (a, b, requested divs, nodes)
+  jump1: Vec<(f64, f64, usize, Vec<f64>)>,
+  /// Simpson 2-D rules with the sample points of each axis (`Steps(a, b, divs+1)` traversed sequentially)
+  jump2: Vec<((f64, f64, f64, f64), usize, Vec<f64>, Vec<f64>)>,
+  /// entry counts of flat (signal, idler) lists, odd ones included
+  flat_lens: Vec<usize>,
+}
+
+/// number of nodes ≤ x (a staircase that jumps by one exactly ON every sample point)
+fn stair(nodes: &[f64], x: f64) -> f64 {
+  nodes.partition_point(|n| *n <= x) as f64
+}
+
+/// how many times a Simpson rule samples its integrand (tells the effective division count without
+/// re-implementing the rule's rounding of `divs`)
+fn sample_count_1d(divs: usize, a: f64, b: f64) -> usize {
+  let c = std::sync::atomic::AtomicUsize::new(0);
+  let _ = Integrator::Simpson { divs }.integrate(|_x: f64| { c.fetch_add(1, std::sync::atomic::Ordering::Relaxed); Complex::new(0.0, 0.0) }, a, b);
+  c.into_inner()
+}
+fn sample_count_2d(divs: usize, r: (f64, f64, f64, f64)) -> usize {
+  let c = std::sync::atomic::AtomicUsize::new(0);
+  let _ = Integrator::Simpson { divs }.integrate2d(|_x: f64, _y: f64| { c.fetch_add(1, std::sync::atomic::Ordering::Relaxed); Complex::new(0.0, 0.0) }, r.0, r.1, r.2, r.3);
+  c.into_inner()
 }
 
 #[derive(Clone, Debug)]
@@ -1267,6 +1291,71 @@ fn sweep_all(d: &SweepData) -> Vec<(String, Option<Val>)> {
       out.push((format!("what=simpson2d f={} rect=(-1,1.5)x(0.25,2) divs={}", name, divs), guard(|| Val::Num(Integrator::Simpson { divs }.integrate2d(f, -1.0, 1.5, 0.25, 2.0)))));
     }
   }
+  // piecewise integrands whose jumps sit exactly ON sample points (filter edge, top-hat window, staircase / binning): a
+  // quadrature sum is independent of the schedule only if the abscissae themselves are
+  for (a, b, divs, nodes) in d.jump1.iter() {
+    let (a, b, divs) = (*a, *b, *divs);
+    let m = nodes.len();
+    let tag = format!("a={} b={} divs={} nodes={}", a, b, divs, m);
+    out.push((format!("what=simpson1d/jump f=staircase {}", tag), guard(|| Val::Num(Integrator::Simpson { divs }.integrate(|x: f64| Complex::new(stair(nodes, x), 0.0), a, b)))));
+    for e in [m / 3 + 1, m / 2, (4 * m) / 5] {
+      let edge = nodes[e.min(m - 1)];
+      out.push((format!("what=simpson1d/jump f=long-pass-edge edge_index={} edge={:e} {}", e, edge, tag), guard(|| Val::Num(Integrator::Simpson { divs }.integrate(|x: f64| if x >= edge { Complex::new(1.0 + 0.25 * x, 0.5) } else { Complex::new(0.0, 0.0) }, a, b)))));
+    }
+    let (lo, hi) = (nodes[m / 4], nodes[(3 * m) / 4 + 1 - (m % 2)]);
+    out.push((format!("what=simpson1d/jump f=top-hat window=({:e},{:e}) {}", lo, hi, tag), guard(|| Val::Num(Integrator::Simpson { divs }.integrate(|x: f64| if x >= lo && x <= hi { Complex::new(1.0, -x) } else { Complex::new(0.0, 0.0) }, a, b)))));
+  }
+  for (r, divs, xs, ys) in d.jump2.iter() {
+    let (r, divs) = (*r, *divs);
+    let tag = format!("rect=({},{})x({},{}) divs={} nodes={}x{}", r.0, r.1, r.2, r.3, divs, xs.len(), ys.len());
+    out.push((format!("what=simpson2d/jump f=staircase {}", tag), guard(|| Val::Num(Integrator::Simpson { divs }.integrate2d(|x: f64, y: f64| Complex::new(stair(xs, x), stair(ys, y)), r.0, r.1, r.2, r.3)))));
+    let (ex, ey) = (xs[xs.len() / 3 + 1], ys[(2 * ys.len()) / 3]);
+    out.push((format!("what=simpson2d/jump f=quadrant-edge edge=({:e},{:e}) {}", ex, ey, tag), guard(|| Val::Num(Integrator::Simpson { divs }.integrate2d(|x: f64, y: f64| if x >= ex && y <= ey { Complex::new(1.0 + 0.25 * x, y) } else { Complex::new(0.0, 0.0) }, r.0, r.1, r.2, r.3)))));
+  }
+  // flat (signal, idler) lists of every length, ODD ones included (a trailing unpaired entry): the parallel traversal
+  // delivers what the sequential traversal delivers, and the range functions return the sequentially evaluated array
+  for &n in d.flat_lens.iter() {
+    let wl: Vec<Wavelength> = (0..n).map(|i| (1500e-9 + 0.37e-9 * (i as f64) + if i % 2 == 1 { 55e-9 } else { 0.0 }) * M).collect();
+    let fr: Vec<Frequency> = wl.iter().map(|l| spdcalc::utils::vacuum_wavelength_to_frequency(*l)).collect();
+    let same = |p: &[(Frequency, Frequency)], q: &[(Frequency, Frequency)]| p.len() == q.len() && p.iter().zip(q).all(|(x, y)| (*(x.0 / (RAD / S))).to_bits() == (*(y.0 / (RAD / S))).to_bits() && (*(x.1 / (RAD / S))).to_bits() == (*(y.1 / (RAD / S))).to_bits());
+    out.push((format!("what=flat-array/par-traversal kind=wavelength entries={}", n), guard(|| {
+      let seq: Vec<(Frequency, Frequency)> = SignalIdlerWavelengthArray(wl.clone()).into_signal_idler_iterator().collect();
+      let par: Vec<(Frequency, Frequency)> = SignalIdlerWavelengthArray(wl.clone()).into_signal_idler_par_iterator().collect();
+      Val::Flag(same(&par, &seq))
+    })));
+    out.push((format!("what=flat-array/par-traversal kind=frequency entries={}", n), guard(|| {
+      let seq: Vec<(Frequency, Frequency)> = SignalIdlerFrequencyArray(fr.clone()).into_signal_idler_iterator().collect();
+      let par: Vec<(Frequency, Frequency)> = SignalIdlerFrequencyArray(fr.clone()).into_signal_idler_par_iterator().collect();
+      Val::Flag(same(&par, &seq))
+    })));
+    if n <= 40 {
+      let sp = &d.spectrum;
+      let spg = &d.spectrum_gl;
+      out.push((format!("what=flat-array/range-vs-sequential kind=wavelength entries={} integrator=simpson50", n), guard(|| {
+        let pts: Vec<(Frequency, Frequency)> = SignalIdlerWavelengthArray(wl.clone()).into_signal_idler_iterator().collect();
+        let a = cbits(&sp.jsa_range(SignalIdlerWavelengthArray(wl.clone())));
+        let e = cbits(&pts.iter().map(|p| sp.jsa(p.0, p.1)).collect::<Vec<_>>());
+        let b = sp.jsi_normalized_range(SignalIdlerWavelengthArray(wl.clone()));
+        let f: Vec<f64> = pts.iter().map(|p| sp.jsi_normalized(p.0, p.1)).collect();
+        Val::Flag(bits_eq(&a, &e) && bits_eq(&b, &f))
+      })));
+      out.push((format!("what=flat-array/range-vs-sequential kind=frequency entries={} integrator=simpson50", n), guard(|| {
+        let pts: Vec<(Frequency, Frequency)> = SignalIdlerFrequencyArray(fr.clone()).into_signal_idler_iterator().collect();
+        let a = jbits(&sp.jsi_range(SignalIdlerFrequencyArray(fr.clone())));
+        let e = jbits(&pts.iter().map(|p| sp.jsi(p.0, p.1)).collect::<Vec<_>>());
+        let b = cbits(&sp.jsa_normalized_range(SignalIdlerFrequencyArray(fr.clone())));
+        let f = cbits(&pts.iter().map(|p| sp.jsa_normalized(p.0, p.1)).collect::<Vec<_>>());
+        Val::Flag(bits_eq(&a, &e) && bits_eq(&b, &f))
+      })));
+      if n <= 9 {
+        out.push((format!("what=flat-array/singles-range kind=frequency entries={} integrator=gauss-legendre6", n), guard(|| {
+          let mut v = jbits(&spg.jsi_singles_range(SignalIdlerFrequencyArray(fr.clone())));
+          v.extend(spg.jsi_singles_idler_normalized_range(SignalIdlerWavelengthArray(wl.clone())));
+          bits(v)
+        })));
+      }
+    }
+  }
   out
 }
 
@@ -1355,6 +1444,54 @@ fn sweep_part(ctx: &mut Ctx) {
     },
     divs1: if ctx.thorough { vec![128, 129, 130, 131, 132, 135, 144, 150, 160, 200, 256, 1000] } else { vec![128, 130, 131, 144, 200] },
     divs2: if ctx.thorough { vec![4, 6, 8, 10, 12, 14, 16, 18, 20, 24, 32, 64] } else { vec![4, 6, 8, 10, 12, 16, 24] },
+    jump1: {
+      // both sides of the switch to the parallel branch (effective divs 128), odd requests, one large rule
+      let mut divs: Vec<usize> = vec![50, 128, 130, 131, 144, 200, 1000];
+      if ctx.thorough {
+        divs.extend([129, 132, 160, 256, 513, 4000]);
+      }
+      divs.push(ctx.rng.between(130, 700));
+      let mut ivs: Vec<(f64, f64)> = vec![(0.1, 0.7), (-1.0, 2.0), (0.0, 1.5)];
+      ivs.push((ctx.rng.range(-3.0, 0.5), ctx.rng.range(0.6, 9.0)));
+      let mut l = Vec::new();
+      for &dv in divs.iter() {
+        for &(a, b) in ivs.iter() {
+          let m = sample_count_1d(dv, a, b);
+          if m < 5 {
+            continue;
+          }
+          let dx = (b - a) / ((m - 1) as f64);
+          l.push((a, b, dv, (0..m).map(|i| a + (i as f64) * dx).collect::<Vec<f64>>()));
+        }
+      }
+      l
+    },
+    jump2: {
+      let mut divs: Vec<usize> = vec![8, 16, 24, 40];
+      if ctx.thorough {
+        divs.extend([9, 64, 130]);
+      }
+      let rects = [(-1.0, 1.5, 0.25, 2.0), (0.1, 0.7, -0.3, 0.9)];
+      let mut l = Vec::new();
+      for &dv in divs.iter() {
+        for &r in rects.iter() {
+          let m = (sample_count_2d(dv, r) as f64).sqrt().round() as usize;
+          if m < 5 {
+            continue;
+          }
+          l.push((r, dv, Steps(r.0, r.1, m).into_iter().collect::<Vec<f64>>(), Steps(r.2, r.3, m).into_iter().collect::<Vec<f64>>()));
+        }
+      }
+      l
+    },
+    flat_lens: {
+      let mut l = vec![0, 1, 2, 3, 4, 5, 7, 8, 9, 15, 16, 17, 33, 63, 64, 65, 257, 1001];
+      if ctx.thorough {
+        l.extend([6, 31, 32, 39, 40, 127, 129, 4097, 20001]);
+      }
+      l.push(ctx.rng.between(0, 300));
+      l
+    },
   });
   let cap = Duration::from_secs(if ctx.thorough { 900 } else { 300 });
   let reps = if ctx.thorough { 3 } else { 1 };
